@@ -289,7 +289,7 @@ def containment_paths(maxdepth=8):
 
 
 # ------------------------------------------------------------------ representatives
-STR_REPS = ["abc", "two words", "", "ünï", "7", "a#b", "it's", "x.y/z", "1e3x"]
+STR_REPS = ["abc", "two words", "", "ünï", "7", "a#b", "it's", "x.y/z", "1e3x", "odd\x0c\x1c\x85\u2028chars\tin it", "END", "layer"]
 EXPR_REPS = [
     ("([a] = 1)", "( [a] = 1 )"),
     ('("[a]" = "x" AND [b] > 2)', '( ( "[a]" = "x" ) AND ( [b] > 2 ) )'),
